@@ -47,6 +47,13 @@ func (h *macKeyHistory) deleteKeysAt(del ...int) {
 }
 
 func (h *macKeyHistory) addKeys(ourKeyID uint32, theirKeyID uint32, receivingMACKey macKey) {
+	for _, k := range h.items {
+		if k.ourKeyID == ourKeyID && k.theirKeyID == theirKeyID {
+			// one entry per key pair is enough: the key is the same for every message under that pair
+			return
+		}
+	}
+
 	macKeys := macKeyUsage{
 		ourKeyID:     ourKeyID,
 		theirKeyID:   theirKeyID,
